@@ -66,7 +66,10 @@ class LBCheck(BaseCheck):
       return rng.choice([0.0, 0.02]), rng.random() > 0.25
     gs_delay = rng.choice([0.0, 0.0, 0.05, 1.0])
     gs_fail = 1 if rng.random() < 0.08 else 0
-    w = make_world(env, rng, kind, lb_params, open_delay, gs_delay, gs_fail)
+    gs_dups = rng.choice([1, 2]) if rng.random() < 0.15 else 0
+    if gs_dups and n0:
+      classes.add('duplicates-in-initial-list')
+    w = make_world(env, rng, kind, lb_params, open_delay, gs_delay, gs_fail, gs_dups)
     lb, ss = w.lb, w.ss
     for ep in rng.sample(pool, n0):
       ss.truth[ep] = __import__('vlib.lbworld', fromlist=['Member']).Member(ep)
